@@ -61,21 +61,30 @@ impl TBS {
         input: &SigInput,
         records: impl Iterator<Item = &'a Record>,
     ) -> ProtoResult<Self> {
-        // TODO: change this to a BTreeSet so that it's preordered, no sort necessary
+        // Collect the canonical form of the RDATA of the records of this rrset. In DNSSEC canonical
+        // form names inside the RDATA are never compressed and, depending on the record type, are
+        // converted to lowercase.
         let mut rrset = Vec::new();
-
-        // collect only the records for this rrset
         for record in records {
             if dns_class == record.dns_class
                 && input.type_covered == record.record_type()
                 && name == &record.name
             {
-                rrset.push(record);
+                let mut rdata = Vec::new();
+                let mut encoder = BinEncoder::new(&mut rdata);
+                encoder.canonical_form = true;
+                encoder.name_encoding = NameEncoding::Uncompressed;
+                record.data.emit(&mut encoder)?;
+                rrset.push(rdata);
             }
         }
 
-        // put records in canonical order
+        // RFC 4034, section 6.3: RRs are sorted by treating the RDATA portion of the canonical form
+        // of each RR as a left-justified unsigned octet sequence in which the absence of an octet
+        // sorts before a zero octet, and all but one of any duplicate RRs are removed. (The TTL of
+        // a record as received plays no role, the Original TTL is used for all RRs.)
         rrset.sort();
+        rrset.dedup();
 
         let name = determine_name(name, input.num_labels)?;
 
@@ -99,7 +108,7 @@ impl TBS {
         input.emit(&mut encoder)?;
 
         // construct the rrset signing data
-        for record in rrset {
+        for rdata in rrset {
             //             RR(i) = name | type | class | OrigTTL | RDATA length | RDATA
             //
             //                name is calculated according to the function in the RFC 4035
@@ -119,14 +128,12 @@ impl TBS {
             input.original_ttl.emit(&mut encoder)?;
             //
             //                RDATA length
-            let rdata_length_place = encoder.place::<u16>()?;
+            u16::try_from(rdata.len())
+                .map_err(|_| ProtoError::from("RDATA length exceeds u16::MAX"))?
+                .emit(&mut encoder)?;
             //
-            //                All names in the RDATA field are in canonical form (set above)
-            record.data.emit(&mut encoder)?;
-
-            let length = u16::try_from(encoder.len_since_place(&rdata_length_place))
-                .map_err(|_| ProtoError::from("RDATA length exceeds u16::MAX"))?;
-            rdata_length_place.replace(&mut encoder, length)?;
+            //                All names in the RDATA field are in canonical form (see above)
+            encoder.emit_slice(&rdata)?;
         }
 
         Ok(Self(buf))
